@@ -1,0 +1,43 @@
+//go:build verif
+
+package gohlslib
+
+import "time"
+
+// This file exists only in builds with the "verif" tag. It exposes a read-only view of the
+// part durations of the leading stream to the verification harness in /verif (property C19).
+// It adds no behaviour to the package.
+
+// VerifLeadingParts returns, for the leading stream, the exact duration of every part of
+// every retained segment (isGap[i] is true and segments[i] is nil for a gap) and of the
+// segment being written (nil if there is none). It takes the muxer mutex.
+func VerifLeadingParts(m *Muxer) (segments [][]time.Duration, isGap []bool, next []time.Duration) {
+	m.mutex.Lock()
+	defer m.mutex.Unlock()
+
+	s := m.leadingStream
+
+	for _, sog := range s.segments {
+		if seg, ok := sog.(*muxerSegmentFMP4); ok {
+			durs := make([]time.Duration, 0, len(seg.parts))
+			for _, part := range seg.parts {
+				durs = append(durs, part.getDuration())
+			}
+			segments = append(segments, durs)
+			isGap = append(isGap, false)
+		} else {
+			_, gap := sog.(*muxerGap)
+			segments = append(segments, nil)
+			isGap = append(isGap, gap)
+		}
+	}
+
+	if seg, ok := s.nextSegment.(*muxerSegmentFMP4); ok && seg != nil {
+		next = make([]time.Duration, 0, len(seg.parts))
+		for _, part := range seg.parts {
+			next = append(next, part.getDuration())
+		}
+	}
+
+	return segments, isGap, next
+}
